@@ -1,12 +1,21 @@
 import DigModel.Proofs.ApiLemmas
+import DigModel.Proofs.DrySimApi
 /-
   C17 — DryRun executes nothing but validates the same.
 
   `C17_silent` (full strength): in a DryRun container no operation of any history, in any
   state, in any scope reports an `enter` or `exit` event — the only events are callbacks
   (which dig fires in DryRun too).
-  The verdict-equality half of the property (`C17_verdicts`) is carried by the metamorphic
-  twin of the correspondence check (tools/props.py:twin_c17), not yet by a theorem.
+  `C17_verdicts` (full strength, whole programs): for every program — any scope tree, any registrations, any
+  malformed inputs, any order — whose scripted user functions all return normally, running it on a container
+  created with DryRun(true) yields, operation by operation, **the same verdict** (accepted, or the very same
+  dig error chain: invalid input, duplicate, cycle with the same path, missing dependencies with the same keys)
+  and the same Info as running it on a normal container.  Proof: a simulation (`engine_drysim`) between the two
+  runs of the resolver — their containers keep the same *core* (registry, flags, graph holders, and the set of
+  keys under which something is cached; `CoreEq`), since dig never branches on a cached *value*, only on its
+  presence — lifted through every API operation (registrations and Scope read and write the core only:
+  `coreEq_apiProvide`, `coreEq_apiDecorate`, `coreEq_apiScope`) and every history (`coreEq_runOps`).
+  `C17_verdict_at` restates it index by index.
 -/
 namespace Dig.C17
 
@@ -48,6 +57,44 @@ theorem C17_silent_history (ctx : Ctx) (hdry : ctx.cfg.dry = true) (fns : List F
         exact this
       · exact h r h1
 
+theorem C17_verdicts (p : Program) (hnd : p.cfg.dry = false) (hok : AllOk p.ctx) :
+    SameVerdicts (runProgram { p with cfg := { p.cfg with dry := true } }).2 (runProgram p).2 :=
+  dryRun_same_verdicts p hnd hok
+
+theorem sameVerdicts_at : ∀ (l l' : List OpRes), SameVerdicts l l' →
+    l.length = l'.length ∧ ∀ i : Nat, (l[i]?).map OpRes.v = (l'[i]?).map OpRes.v ∧ (l[i]?).map OpRes.info = (l'[i]?).map OpRes.info := by
+  intro l
+  induction l with
+  | nil =>
+    intro l' h
+    cases l' with
+    | nil => exact ⟨rfl, fun i => by simp⟩
+    | cons x xs => exact absurd h (by simp [SameVerdicts])
+  | cons r rs ih =>
+    intro l' h
+    cases l' with
+    | nil => exact absurd h (by simp [SameVerdicts])
+    | cons x xs =>
+      obtain ⟨h1, h2, h3⟩ := h
+      obtain ⟨i1, i2⟩ := ih xs h3
+      refine ⟨by simp [i1], fun i => ?_⟩
+      cases i with
+      | zero => simp [h1, h2]
+      | succ j => simpa using i2 j
+
+/-- operation `i` of the DryRun run and of the normal run report the same verdict -/
+theorem C17_verdict_at (p : Program) (hnd : p.cfg.dry = false) (hok : AllOk p.ctx) (i : Nat) :
+    ((runProgram { p with cfg := { p.cfg with dry := true } }).2[i]?).map OpRes.v = ((runProgram p).2[i]?).map OpRes.v :=
+  ((sameVerdicts_at _ _ (C17_verdicts p hnd hok)).2 i).1
+
+/-- non-vacuity: a program with an empty script satisfies the hypothesis (every execution succeeds) -/
+example (p : Program) (h : p.script = []) : AllOk p.ctx := by
+  intro f x
+  simp [Program.ctx, Ctx.beh, h]
+
 #print axioms C17_silent
+#print axioms C17_verdicts
+#print axioms sameVerdicts_at
+#print axioms C17_verdict_at
 #print axioms C17_silent_history
 end Dig.C17
